@@ -350,7 +350,14 @@ class Lattice:
         return self.earley()["accepted"]
 
     # ---- second formulation for cross-checks: number of derivations by counting ---------------
+    def count_prefix_trees(self):
+        """number of derivation trees of all sentence prefixes (what prefix_trees() would enumerate)"""
+        return self._count(prefixes=True)
+
     def count_sentence_trees(self):
+        return self._count(prefixes=False)
+
+    def _count(self, prefixes):
         assert not self.cfg.is_cyclic()
         cfg = self.cfg
 
@@ -371,7 +378,7 @@ class Lattice:
                     tot += a * cseq(r[1:], k, j)
             return tot
 
-        return sum(csym(cfg.start, 0, j) for j in range(self.n + 1) if self.skip(j) == self.n)
+        return sum(csym(cfg.start, 0, j) for j in range(self.n + 1) if prefixes or self.skip(j) == self.n)
 
 
 # ---- trees ----------------------------------------------------------------------------------
